@@ -39,21 +39,21 @@ Applicable(f, v) ==
   CASE f = "main.slice_size" -> v \in {"0", "1", "f-4", "f+4", "2^31", "2^32", "2^62", "2^63", "2^64-1"}
     \* the slice size raised above every file, with one checksum pair per file (count-consistent)
     [] f = "main.slice_size_1pair" -> v \in {"2^31", "2^62", "2^63", "f+4"}
-    [] f = "main.nrecv" -> v \in {"0", "1", "f-1", "f+1", "2^31", "2^32"}
-    [] f = "fd.length" -> v \in {"0", "1", "f-1", "f+1", "rem+1", "2^31", "2^63", "2^64-1"}
+    [] f = "main.nrecv" -> v \in {"0", "1", "f-1", "f+1", "256", "2^28", "2^28+1", "2^31", "2^32-1"}
+    [] f = "fd.length" -> v \in {"0", "1", "f-1", "f+1", "256", "2^31", "2^32", "2^40", "2^62", "2^63", "2^63+f", "2^64-2", "2^64-1", "rem+1"}
     [] f = "ifsc.npairs" -> v \in {"0", "f-1", "f+1"}
     [] f = "recv.exp" -> v \in {"0", "1", "f+1", "2^31", "2^32", "256", "65535"}
     [] f = "recv.datalen" -> v \in {"0", "f-4", "f+4", "1"}
-    [] f = "hdr.volume" -> v \in {"0", "1", "f+1", "256", "2^63"}
-    [] f = "hdr.file_count" -> v \in {"0", "1", "f-1", "f+1", "256", "2^31", "2^40", "2^64-1"}
-    [] f = "hdr.list_offset" -> v \in {"0", "f-1", "f+1", "2^63"}
-    [] f = "hdr.list_bytes" -> v \in {"0", "f-1", "f+1", "2^63", "2^64-1"}
-    [] f = "hdr.data_offset" -> v \in {"0", "f-1", "f+1", "2^63"}
-    [] f = "hdr.data_bytes" -> v \in {"0", "f-1", "f+1", "2^63", "2^64-1"}
+    [] f = "hdr.volume" -> v \in {"0", "1", "f-1", "f+1", "256", "2^31", "2^32", "2^40", "2^62", "2^63", "2^63+f", "2^64-2", "2^64-1", "rem+1"}
+    [] f = "hdr.file_count" -> v \in {"0", "1", "f-1", "f+1", "256", "2^31", "2^32", "2^40", "2^62", "2^63", "2^63+f", "2^64-2", "2^64-1", "rem+1"}
+    [] f = "hdr.list_offset" -> v \in {"0", "1", "f-1", "f+1", "256", "2^31", "2^32", "2^40", "2^62", "2^63", "2^63+f", "2^64-2", "2^64-1", "rem+1"}
+    [] f = "hdr.list_bytes" -> v \in {"0", "1", "f-1", "f+1", "256", "2^31", "2^32", "2^40", "2^62", "2^63", "2^63+f", "2^64-2", "2^64-1", "rem+1"}
+    [] f = "hdr.data_offset" -> v \in {"0", "1", "f-1", "f+1", "256", "2^31", "2^32", "2^40", "2^62", "2^63", "2^63+f", "2^64-2", "2^64-1", "rem+1"}
+    [] f = "hdr.data_bytes" -> v \in {"0", "1", "f-1", "f+1", "256", "2^31", "2^32", "2^40", "2^62", "2^63", "2^63+f", "2^64-2", "2^64-1", "rem+1"}
     [] f = "hdr.version" -> v \in {"0", "f+1", "2^31"}
-    [] f = "ent.entry_bytes" -> v \in {"0", "1", "f-1", "f+1", "f-4", "f+4", "2^63", "rem+1"}
-    [] f = "ent.status" -> v \in {"0", "1", "f+1", "2^63", "2^64-1"}
-    [] f = "ent.file_bytes" -> v \in {"0", "f-1", "f+1", "rem+1", "2^31", "2^63", "2^64-1"}
+    [] f = "ent.entry_bytes" -> v \in {"0", "1", "f-1", "f+1", "256", "2^31", "2^32", "2^40", "2^62", "2^63", "2^63+f", "2^64-2", "2^64-1", "rem+1"}
+    [] f = "ent.status" -> v \in {"0", "1", "f-1", "f+1", "256", "2^31", "2^32", "2^40", "2^62", "2^63", "2^63+f", "2^64-2", "2^64-1", "rem+1"}
+    [] f = "ent.file_bytes" -> v \in {"0", "1", "f-1", "f+1", "256", "2^31", "2^32", "2^40", "2^62", "2^63", "2^63+f", "2^64-2", "2^64-1", "rem+1"}
     [] OTHER -> FALSE
 
 \* TRUTH LAYER: which mutants still describe the same recoverable data (semantically valid)
